@@ -75,6 +75,35 @@ Check C02_impl_set :
     (forall w, In w (in_dws i) -> has_dup (dw_traits w) = false) /\ has_cross_dup (in_dws i) = false.
 Print Assumptions C02_impl_set.
 
+(* "each requested trait exactly once": in the whole impl list of an accepted item no trait (with its crate option) occurs
+   twice - neither inside one attribute, nor in two attributes with the same bounds, nor in two attributes with DIFFERENT
+   bounds (two impls of one trait for one type overlap whatever their where-clauses say; before the repair recorded as F12
+   such items were accepted and failed with E0119). *)
+Theorem C02_each_trait_once :
+  forall (c : cfg) (r : raw_item) (i : input),
+    from_input c r = Ok i -> has_dup (flat_map dw_traits (in_dws i)) = false.
+Proof. exact accepted_each_trait_once. Qed.
+
+Check C02_each_trait_once :
+  forall (c : cfg) (r : raw_item) (i : input),
+    from_input c r = Ok i -> has_dup (flat_map dw_traits (in_dws i)) = false.
+Print Assumptions C02_each_trait_once.
+
+(* non-vacuity: `Clone; T` + `Debug; U` is accepted (two impls), `Clone; T` + `Clone; U` and the non-adjacent
+   `Clone; T` + `Debug; U` + `Clone; V` are refused as duplicates *)
+Example C02_once_nonvacuous :
+  let g3 := mkGenerics [GPType "T" [] []; GPType "U" [] []; GPType "V" [] []] false None in
+  let S attrs := mkRawItem attrs [] "S" g3 (KStruct RNamed [fld "a" ["T"] []; fld "b" ["U"] []; fld "c" ["V"] []]) in
+  (exists i, from_input cfg_default (S [dw_of ["Clone"] (Some [GRType ["T"]]); dw_of ["Debug"] (Some [GRType ["U"]])]) = Ok i /\
+             length (expand_impls cfg_default i) = 2) /\
+  from_input cfg_default (S [dw_of ["Clone"] (Some [GRType ["T"]]); dw_of ["Clone"] (Some [GRType ["U"]])]) = Err ETraitDuplicate /\
+  from_input cfg_default (S [dw_of ["Clone"] (Some [GRType ["T"]]); dw_of ["Debug"] (Some [GRType ["U"]]); dw_of ["Clone"] (Some [GRType ["V"]])]) = Err ETraitDuplicate.
+Proof.
+  cbv zeta. split; [|split; vm_compute; reflexivity].
+  match goal with |- exists i, ?f = Ok i /\ _ => destruct f as [i| |] eqn:E; try (vm_compute in E; discriminate) end.
+  exists i. split; [reflexivity|]. vm_compute in E. injection E as <-. vm_compute. reflexivity.
+Qed.
+
 (* The compile obligations that depend on decisions of the macro - every `match` is exhaustive and
    reaches an arm, constructors name every field once, `default()` is exactly one constructor, casts
    only on enums Rust lets you cast, the const-fn table covers every variant within the tag type, the
